@@ -483,19 +483,26 @@ def _pick_best_crs(poly: "geom.Geometry", crs_candidates: List[CRS]) -> CRS:
     # pylint: disable=import-outside-toplevel
     from . import geom
 
+    point_like = False
+
     def overlap_pct(crs: CRS) -> float:
         crs_region = crs.valid_region
         if crs_region is None:
             return 1  # pragma: nocover
+        if point_like:
+            # no area to compare: prefer the candidate whose valid region contains the location
+            return 1 if crs_region.contains(poly.centroid) else 0
         return (crs_region & poly).area / poly.area
 
     if len(crs_candidates) < 1:
         raise ValueError("No candidate CRSs found")
 
-    if len(crs_candidates) > 1 and poly.area > 1e-9:
+    if len(crs_candidates) > 1:
         if poly.crs is None:
             poly = geom.Geometry(poly.geom, "epsg:4326")
 
+        # geometries of a few metres across have (in squared degrees) too little area to rank by
+        point_like = not poly.area > 1e-9
         crs_candidates = sorted(crs_candidates, key=overlap_pct, reverse=True)
 
     return crs_candidates[0]
